@@ -26,7 +26,7 @@ def std_run(ctx, spec):
             binaries[os.path.basename(b)] = b
             w = j.get("workers", D.NCPU if len(jobs) == 1 else max(6, D.NCPU // 2))
             futs.append(ex.submit(D.run_symx, ctx, b, j["pattern"], workers=w, deadline=j.get("deadline"), profile=j.get("profile"),
-                                  cap=j.get("cap"), max_paths=j.get("max_paths"), label=j.get("label"), env=j.get("env")))
+                                  cap=j.get("cap"), max_paths=j.get("max_paths"), label=j.get("label"), env=j.get("env"), budget=j.get("budget", False)))
         for f in futs:
             f.result()
     D.collect(ctx, spec.get("policy", {}))
@@ -91,13 +91,12 @@ def c08_jobs(tier):
                 dict(harness="c08_refl", pattern=r".", label="compute_reflector with leaf contracts", deadline=120),
                 dict(harness="c08_qr", pattern=r"^hess/n[23]/|^tridiag/n[23]/|^tridiag-exact-shift/n2", label="UpperHessenbergQR/TridiagQR n<=3", deadline=280),
                 dict(harness="c08_dsqr", pattern=r"^dsqr/n3/zero|^dsqr/n4/zero02|^dsqr/n4/zero1", label="DoubleShiftQR deflated blocks", deadline=200)]
-    return [dict(harness="c08_rot", pattern=r"^rotation/|^dsqr/stable_", label="leaf kernels (double)", deadline=600),
+    return c08_jobs("quick") + [
             dict(harness="c08_rot", pattern=r"^rotation/|^dsqr/stable_", label="leaf kernels (float)", profile="float", deadline=600),
             dict(harness="c08_rot", pattern=r"^rotation/|^dsqr/stable_", label="leaf kernels (long double)", profile="longdouble", deadline=600),
-            dict(harness="c08_refl", pattern=r".", label="compute_reflector with leaf contracts", deadline=300),
-            dict(harness="c08_qr", pattern=r"^hess/|^tridiag/n[234]/|^tridiag-exact-shift/", label="UpperHessenbergQR n<=5 / TridiagQR n<=4", deadline=2400, env=full,
-                 cap=(20, 120)),
-            dict(harness="c08_dsqr", pattern=r"^dsqr/n[34]/", label="DoubleShiftQR n<=4 incl. unreduced blocks", deadline=3000, env=full, cap=(20, 120))]
+            dict(harness="c08_qr", pattern=r"^hess/|^tridiag/n[234]/|^tridiag-exact-shift/", label="UpperHessenbergQR n<=5 / TridiagQR n<=4 [budgeted]", deadline=1200, env=full,
+                 cap=(20, 120), budget=True),
+            dict(harness="c08_dsqr", pattern=r"^dsqr/n[34]/", label="DoubleShiftQR n<=4 incl. unreduced blocks [budgeted]", deadline=1200, env=full, cap=(20, 120), budget=True)]
 
 
 SPECS["C08"] = dict(
@@ -139,9 +138,9 @@ def c10_jobs(tier):
     if tier == "quick":
         return [dict(harness="c10_bkldlt", pattern=r"^bk/n[12]/|^bk-lower-vs-upper/n[12]$|^bk-reuse|^wrapper/.*/n[12]$|^bk-complex/n[12]/", label="n<=2, all layouts, real+complex", deadline=200),
                 dict(harness="c10_bkldlt", pattern=r"^bk/n3/(lower|upper)/colmajor/shift|^bk/n3/upper/rowmajor/shift", label="n=3 real", deadline=280)]
-    return [dict(harness="c10_bkldlt", pattern=r"^bk/n[123]/|^bk-lower-vs-upper/n[123]$|^bk-reuse|^wrapper/|^bk-complex/n[12]/", label="n<=3 real, n<=2 complex, wrappers", deadline=1500),
-            dict(harness="c10_bkldlt", pattern=r"^bk-complex/n3/", label="n=3 complex Hermitian", deadline=2400, cap=(20, 120)),
-            dict(harness="c10_bkldlt", pattern=r"^bk/n4/lower/colmajor/shift", label="n=4 real", deadline=3000, cap=(20, 120))]
+    return c10_jobs("quick") + [dict(harness="c10_bkldlt", pattern=r"^bk/n3/|^bk-lower-vs-upper/n3$|^wrapper/.*/n3$", label="n=3 real all layouts, wrappers n=3 [budgeted]", deadline=1200, budget=True),
+            dict(harness="c10_bkldlt", pattern=r"^bk-complex/n3/", label="n=3 complex Hermitian [budgeted]", deadline=1200, cap=(20, 120), budget=True),
+            dict(harness="c10_bkldlt", pattern=r"^bk/n4/lower/colmajor/shift", label="n=4 real [budgeted]", deadline=1200, cap=(20, 120), budget=True)]
 
 
 SPECS["C10"] = dict(
@@ -196,7 +195,7 @@ def c01_jobs(tier):
         return [dict(harness="sym_glue", pattern=r"^sym/n4k2m3/[A-Za-z]+/LargestAlge/maxit[01]/ic(/symtol)?$|^symshift/n4k2m3/.*/maxit[01]/|^hist/n3k1m2/.*/maxit[01]/|^sym/n3k1m2/.*/maxit2/ic$",
                      label="symmetric glue (4,2,3) maxit<=1, (3,1,2) maxit<=2, histories", deadline=280)]
     return c01_jobs("quick") + [dict(harness="sym_glue", pattern=r"^sym/n(5k2m4|5k3m4|6k1m3|6k2m5)/LargestMagn/LargestAlge/maxit[01]/ic$|^sym/n5k2m4/(BothEnds|SmallestAlge)/LargestAlge/maxit[01]/ic$|^hist/n4k2m3/.*/maxit0/|^sym/n3k1m2/.*/maxit3/ic$",
-                                     label="larger sizes (5,2,4) (5,3,4) (6,1,3) (6,2,5) maxit<=1, (3,1,2) maxit 3, histories (4,2,3)", deadline=2400)]
+                                     label="larger sizes (5,2,4) (5,3,4) (6,1,3) (6,2,5) maxit<=1, (3,1,2) maxit 3, histories (4,2,3) [budgeted]", deadline=700, budget=True)]
 
 
 SPECS["C01"] = dict(
@@ -226,7 +225,7 @@ def c02_jobs(tier):
         return [dict(harness="gen_glue", pattern=r"^gen/n5k1m3/[A-Za-z]+/LargestMagn/maxit[01]/ic$|^genshift/n5k1m3/.*/maxit[01]/|^genhist/n5k1m3/.*/maxit0/|^gen/n5k2m4/(LargestMagn/LargestMagn|LargestReal/SmallestReal|LargestMagn/SmallestImag)/maxit0/|^genshift/n5k2m4/.*/maxit0/",
                      label="general glue (5,1,3) maxit<=1, (5,2,4) maxit 0, histories", deadline=280)]
     return c02_jobs("quick") + [dict(harness="gen_glue", pattern=r"^gen/n(5k2m4|6k2m5|6k3m5|7k1m6)/LargestMagn/LargestMagn/maxit[01]/ic$|^gen/n5k2m4/(LargestReal|SmallestImag)/LargestMagn/maxit1/ic$|^genhist/n5k1m3/.*/maxit1/",
-                                     label="larger sizes (5,2,4) (6,2,5) (6,3,5) (7,1,6) maxit<=1, histories maxit 1", deadline=2400)]
+                                     label="larger sizes (5,2,4) (6,2,5) (6,3,5) (7,1,6) maxit<=1, histories maxit 1 [budgeted]", deadline=700, budget=True)]
 
 
 SPECS["C02"] = dict(
@@ -255,8 +254,8 @@ def c05_jobs(tier):
                      label="symmetric: all sorting rules, accessors, counters", deadline=200),
                 dict(harness="gen_glue", pattern=r"^gen/n5k1m3/(LargestReal|LargestMagn)/(SmallestReal|SmallestImag)/maxit[01]/ic$|^genshift/n5k1m3/LargestReal/SmallestReal/maxit[01]/|^genhist/n5k1m3/.*/maxit0/|^gen/n5k2m4/LargestReal/SmallestReal/maxit0/|^genshift/n5k2m4/LargestReal/SmallestReal/maxit0/",
                      label="general: sorting rules, accessors, counters", deadline=200)]
-    return c05_jobs("quick") + [dict(harness="sym_glue", pattern=r"^sym/n5k2m4/LargestMagn/(LargestMagn|SmallestAlge|SmallestMagn)/maxit[01]/ic$|^symshift/n5k2m4/.*/maxit[01]/", label="symmetric (5,2,4)", deadline=2400),
-                                dict(harness="gen_glue", pattern=r"^gen/n5k2m4/(LargestReal/SmallestReal|LargestMagn/SmallestImag)/maxit1/ic$|^genshift/n5k2m4/.*/maxit1/", label="general (5,2,4) maxit 1", deadline=2400)]
+    return c05_jobs("quick") + [dict(harness="sym_glue", pattern=r"^sym/n5k2m4/LargestMagn/(LargestMagn|SmallestAlge|SmallestMagn)/maxit[01]/ic$|^symshift/n5k2m4/.*/maxit[01]/", label="symmetric (5,2,4) [budgeted]", deadline=700, budget=True),
+                                dict(harness="gen_glue", pattern=r"^gen/n5k2m4/(LargestReal/SmallestReal|LargestMagn/SmallestImag)/maxit1/ic$|^genshift/n5k2m4/.*/maxit1/", label="general (5,2,4) maxit 1 [budgeted]", deadline=700, budget=True)]
 
 
 SPECS["C05"] = dict(
@@ -284,9 +283,9 @@ def c04_jobs(tier):
          dict(harness="c08_qr", pattern=r"^tridiag-exact-shift/n2", label="exact-shift deflation", deadline=100)]
     if tier == "quick":
         return q
-    return q + [dict(harness="sym_glue", pattern=r"^sym/n(5k3m4|6k2m5)/(LargestMagn|BothEnds|SmallestAlge)/LargestAlge/maxit[01]/ic$", label="symmetric: larger sizes", deadline=2400),
-                dict(harness="gen_glue", pattern=r"^gen/n(6k2m5|6k3m5)/(LargestMagn|LargestReal)/LargestMagn/maxit[01]/ic$", label="general: larger sizes", deadline=2400),
-                dict(harness="c08_qr", pattern=r"^tridiag-exact-shift/n3", label="exact-shift deflation n=3", deadline=600)]
+    return q + [dict(harness="sym_glue", pattern=r"^sym/n(5k3m4|6k2m5)/(LargestMagn|BothEnds|SmallestAlge)/LargestAlge/maxit[01]/ic$", label="symmetric: larger sizes [budgeted]", deadline=700, budget=True),
+                dict(harness="gen_glue", pattern=r"^gen/n(6k2m5|6k3m5)/(LargestMagn|LargestReal)/LargestMagn/maxit[01]/ic$", label="general: larger sizes [budgeted]", deadline=700, budget=True),
+                dict(harness="c08_qr", pattern=r"^tridiag-exact-shift/n3", label="exact-shift deflation n=3 [budgeted]", deadline=600, budget=True)]
 
 
 SPECS["C04"] = dict(
@@ -317,8 +316,8 @@ def c13_jobs(tier):
     q.append(dict(harness="c07_krylov", pattern=r"^lanczos-step/n3/k2/zero$|^arnoldi-step/n3/k[12]/regular$|^(arnoldi|lanczos)-init/n2/v[01]$", label="definedness (division / sqrt) obligations inside the real Krylov kernels (shared with C07)", deadline=200))
     if tier == "quick":
         return q
-    return q + [dict(harness="sym_glue", pattern=r"^sym/n(6k2m5|7k1m6|5k3m4)/LargestMagn/LargestAlge/maxit1/ic$", label="whole runs, larger sizes (symmetric)", deadline=3000, sanitize=True),
-                dict(harness="gen_glue", pattern=r"^gen/n(6k2m5|6k3m5|7k1m6|7k2m6)/LargestMagn/LargestMagn/maxit1/ic$", label="whole runs, larger sizes (general)", deadline=3000, sanitize=True)]
+    return q + [dict(harness="sym_glue", pattern=r"^sym/n(6k2m5|7k1m6|5k3m4)/LargestMagn/LargestAlge/maxit1/ic$", label="whole runs, larger sizes (symmetric) [budgeted]", deadline=700, sanitize=True, budget=True),
+                dict(harness="gen_glue", pattern=r"^gen/n(6k2m5|6k3m5|7k1m6|7k2m6)/LargestMagn/LargestMagn/maxit1/ic$", label="whole runs, larger sizes (general) [budgeted]", deadline=700, sanitize=True, budget=True)]
 
 
 SPECS["C13"] = dict(
@@ -347,8 +346,8 @@ def c07_jobs(tier):
     if tier == "quick":
         return [dict(harness="c07_krylov", pattern=r"-step/n[34]/k\d/(regular|small)$|^lanczos-step/n3/k2/zero$|-init/n2/|^(arnoldi|lanczos)-init/n3/v0$|^init-zero-vector|^arnoldi-compress/n3/|^lanczos-compress/n3/m2|^lanczos-bstep/",
                      label="one inductive step / init / compress / B-inner product, n<=4", deadline=280)]
-    return [dict(harness="c07_krylov", pattern=r"-step/n[34]/k\d/(regular|small)$|^lanczos-step/n3/k2/zero$|-init/|^init-zero-vector|^arnoldi-compress/|^lanczos-compress/n[34]/m2|^lanczos-bstep/",
-                 label="single-step cases n<=4, init with tolerance obligations", deadline=2400, env={"VERIF_C07_TOL": "1"}, cap=(20, 120))]
+    return c07_jobs("quick") + [dict(harness="c07_krylov", pattern=r"-step/n[34]/k\d/(regular|small)$|^lanczos-step/n3/k2/zero$|-init/|^init-zero-vector|^arnoldi-compress/|^lanczos-compress/n[34]/m2|^lanczos-bstep/",
+                 label="single-step cases n<=4, init with tolerance obligations [budgeted]", deadline=1200, env={"VERIF_C07_TOL": "1"}, cap=(20, 120), budget=True)]
 
 
 SPECS["C07"] = dict(
@@ -384,7 +383,7 @@ def c11_jobs(tier):
         return [dict(harness="c11_ops", pattern=r"^(?!SparseGenComplexShiftSolve).*/n2$|^nonsquare/", label="all wrappers n=2, non-square shapes", deadline=280)]
     return [dict(harness="c11_ops", pattern=r"^(?!SparseGenComplexShiftSolve).*/n2$|^nonsquare/", label="all wrappers n=2", deadline=900),
             dict(harness="c11_ops", pattern=r"^(Dense|Sparse)(Gen|Sym|Herm)MatProd.*/n3$|^SymShiftInvert/.*/n3$|^(Dense|Sparse)Cholesky.*/n3$|^SparseRegularInverse/.*/n3$|^SparseSymShiftSolve/.*/n3$|^DenseGenRealShiftSolve/.*/n3$",
-                 label="products, SymShiftInvert, Cholesky, shift solves n=3", deadline=3000, cap=(20, 120))]
+                 label="products, SymShiftInvert, Cholesky, shift solves n=3 [budgeted]", deadline=1200, cap=(20, 120), budget=True)]
 
 
 SPECS["C11"] = dict(
@@ -418,9 +417,8 @@ def c03_jobs(tier):
         return [dict(harness="c03_geigs", pattern=r"/n2$|^backtransform/.*/nev[12]/|^lemma", label="operators n=2, back-transformations nev<=2", deadline=250, sanitize=True),
                 dict(harness="c07_krylov", pattern=r"^lanczos-bstep/n3", label="B-inner product Lanczos step (shared with C07)", deadline=100),
                 dict(harness="c11_ops", pattern=r"^SymShiftInvert/(dd|ss)/(LU|UL)/n2$|^(Dense|Sparse)Cholesky/upper/col/n2$|^SparseRegularInverse/.*/n2$", label="wrappers in non-default triangle options (shared with C11)", deadline=200)]
-    return [dict(harness="c03_geigs", pattern=r".", label="operators n<=3, back-transformations nev<=3", deadline=1500, sanitize=True),
-            dict(harness="c07_krylov", pattern=r"^lanczos-bstep/", label="B-inner product Lanczos steps", deadline=300),
-            dict(harness="c11_ops", pattern=r"^SymShiftInvert/.*/n2$|^(Dense|Sparse)Cholesky/.*/n2$|^SparseRegularInverse/.*/n2$", label="wrappers (shared with C11)", deadline=600)]
+    return c03_jobs("quick") + [dict(harness="c03_geigs", pattern=r"/n3$|^backtransform/.*/nev3/", label="operators n=3, back-transformations nev=3 [budgeted]", deadline=1200, sanitize=True, budget=True),
+            dict(harness="c07_krylov", pattern=r"^lanczos-bstep/n4", label="B-inner product Lanczos steps n=4 [budgeted]", deadline=600, budget=True)]
 
 
 SPECS["C03"] = dict(
